@@ -22,6 +22,35 @@ def step (st : List Part) (fs : List String) : List Part × String :=
     | _, _, _, _ => (st, "bad-op")
   | _ => (st, "bad-op")
 
+def rotStr : RotOutcome → String
+  | .tooShort => "short"
+  | .tooLong => "long"
+  | .duplicate => "dup"
+  | .pending n => "pending:" ++ toString n
+  | .combineErr e => "cerr:" ++ (reprStr e).replace "Obao.GF256.CombineErr." ""
+  | .verifyFail => "verify-fail"
+  | .proceeds => "proceeds"
+
+def parseLenCheck? (s : String) : Option (Option (Nat × Nat)) :=
+  if s = "-" then some none else
+  match s.splitOn ":" with
+  | [a, b] => match a.toNat?, b.toNat? with
+    | some a, some b => some (some (a, b))
+    | _, _ => none
+  | _ => none
+
+/-- `rotate <kind> <threshold> <lenCheck: - | min:max> <secret hex> <part hex>` (kind is informational: every
+    path has to verify the recovered key) -/
+def stepAll (st : List Part) (fs : List String) : List Part × String :=
+  match fs with
+  | ["rotate", _kind, thr, lc, secret, part] =>
+    match thr.toInt?, parseLenCheck? lc, parseHex? secret, parseHex? part with
+    | some t, some lc, some sec, some p =>
+      let r := rotSubmit ⟨t, sec, lc⟩ st p
+      (r.1, rotStr r.2 ++ ";progress=" ++ toString (progress r.1))
+    | _, _, _, _ => (st, "bad-op")
+  | _ => step st fs
+
 def streams : List (String × Driver.Stream) :=
-  [("threshold", { σ := List Part, init := [], step := step })]
+  [("threshold", { σ := List Part, init := [], step := stepAll })]
 end Driver.Threshold
